@@ -45,6 +45,10 @@ type HF64 struct{ V float64 }
 type HStr struct{ V string }
 type HBin struct{ V []byte }
 type HTime struct{ V time.Time }
+type HPTime struct {
+	P *time.Time
+	Q *time.Time
+}
 type HBool struct{ V bool }
 
 // Slices of every scalar kind.
@@ -87,6 +91,8 @@ type Conts struct {
 	MM    map[string]map[string]int32
 	MF    map[string]float64
 	ML64  map[int64]int64
+	MU64  map[uint64]uint64
+	MI8   map[int8]uint16
 	Inner Small
 	PIn   *Small
 }
@@ -140,6 +146,7 @@ type Node struct {
 // front of the pointer fields.
 type FNode struct {
 	FT time.Time
+	PT *time.Time
 	FM map[string]int32
 	FS string
 	FB []byte
